@@ -1,9 +1,289 @@
-"""placeholder until the stepped Bridge/Executor loops are built"""
+"""C06(b): the two real receive loops -- Bridge.recv_events and Executor.recv_loop -- stepped one pass at a time over the
+fake zmq with an in-flight stage, under frame drops/duplications (BFS, fault budget F). Checks that each loop really
+drives acknowledgement, duplicate suppression and retries: every message sent through the acknowledged layer is handed
+to the other application exactly once, or the failure is reported -- never silently lost."""
+from __future__ import annotations
+
+import pickle
+import types
+
+import cascade.executor.bridge as bridge_mod
+import cascade.executor.comms as comms
+import cascade.executor.executor as executor_mod
+import cascade.executor.msg as msg
+from cascade.executor.runner.entrypoint import worker_address
+from cascade.executor.serde import des_message, ser_message
+from cascade.low.core import DatasetId, JobInstance, WorkerId
+
+from vf import bfs, common
+from vf.fakezmq import Net
+
+MAX_RETRIES = 3
+
+
+class Yield(BaseException):
+    pass
+
+
+class InertProc:
+    exitcode = None
+    pid = 1
+
+    def __init__(self, *a, **k):
+        pass
+
+    def start(self):
+        pass
+
+    def join(self, *a):
+        pass
+
+    def is_alive(self):
+        return False
+
+    def kill(self):
+        pass
+
+
+class World:
+    def __init__(self, faults: int):
+        for mod, names in ((comms, ("zmq", "get_context", "time", "max_retries_per_message")), (bridge_mod, ("time",)),
+                           (executor_mod, ("get_context", "atexit", "shm_api"))):
+            for n in names:
+                common.seam(mod, n)
+        self.net = Net(staged=True)
+        self.net.local_prefixes = ("ipc://",)  # executor -> worker forwards are local and not part of the acknowledged layer
+        self.clock = [10_000_000_000_000]
+        vt = types.SimpleNamespace(time_ns=lambda: self.clock[0], time=lambda: self.clock[0] / 1e9)
+        comms.zmq = self.net
+        comms.get_context = lambda: self.net.Context()
+        comms.time = vt
+        bridge_mod.time = vt
+        comms.max_retries_per_message = MAX_RETRIES
+        executor_mod.get_context = lambda kind: types.SimpleNamespace(Process=InertProc)
+        executor_mod.atexit = types.SimpleNamespace(register=lambda f: None)
+        self.allow_timeout = False
+        self.net.block = self._block
+        self.faults_left = faults
+        job = JobInstance(tasks={}, edges=[])
+        self.ex = executor_mod.Executor(job, "inproc://ctrl", 1, "h0", 1000, None)
+        self.w = WorkerId("h0", "w0")
+        self.ex.workers[self.w] = InertProc()
+        self.ex.to_controller(self.ex.registration)
+        # registration reaches the controller before the Bridge is constructed (its __init__ blocks on it)
+        while self.net.flight:
+            self.net.deliver(0)
+        self.br = bridge_mod.Bridge("inproc://ctrl", 1)
+        self.br.shutdown = lambda: self.ctrl_failed.append("shutdown")
+        while self.net.flight:  # the Ack of the registration
+            self.net.deliver(0)
+        self._exec_pass()
+        self.sent = {"ctrl": 0, "exec": 0}
+        self.ctrl_events: list = []
+        self.ctrl_failed: list = []
+        self.exec_failed = False
+        self.viol: list = []
+
+    def _block(self, cond, timeout):
+        if self.allow_timeout and timeout is not None:
+            self.allow_timeout = False
+            self.clock[0] += int(timeout) * 1_000_000
+            return
+        raise Yield()
+
+    # ---- messages
+    def ctrl_msg(self, i):
+        return msg.TaskSequence(worker=self.w, tasks=[f"t{i}"], publish=set())
+
+    def exec_msg(self, i):
+        return msg.DatasetPublished(origin=self.w, ds=DatasetId(f"t{i}", "0"), transmit_idx=None)
+
+    def forwarded_to_worker(self):
+        return [des_message(fr[0]) for fr in self.net.queues[worker_address(self.w)]]
+
+    # ---- events
+    def enabled(self, nmsgs: int):
+        evs = []
+        if self.sent["ctrl"] < nmsgs and not self.ctrl_failed:
+            evs.append(("ctrl_send",))
+        if self.sent["exec"] < nmsgs and not self.exec_failed:
+            evs.append(("exec_send",))
+        for k in range(len(self.net.deliverable())):
+            evs.append(("deliver", k))
+            if self.faults_left > 0:
+                evs.append(("drop", k))
+                evs.append(("dup", k))
+        if not self.ctrl_failed:
+            evs.append(("ctrl_pass",))
+        if not self.exec_failed:
+            evs.append(("exec_pass",))
+        return evs
+
+    def apply(self, ev):
+        k = ev[0]
+        if k == "ctrl_send":
+            self.br.task_sequence(self.ctrl_msg(self.sent["ctrl"]))
+            self.sent["ctrl"] += 1
+        elif k == "exec_send":
+            # a worker reports a publication to its executor (plain callback, as memory.py does)
+            self.net.queues[self.ex.mlistener.address].append([ser_message(self.exec_msg(self.sent["exec"]))])
+            self.sent["exec"] += 1
+        elif k in ("deliver", "drop", "dup"):
+            i = self.net.deliverable()[ev[1]]
+            if k == "deliver":
+                self.net.deliver(i)
+            elif k == "drop":
+                self.net.drop(i)
+                self.faults_left -= 1
+            else:
+                self.net.duplicate(i)
+                self.faults_left -= 1
+        elif k == "ctrl_pass":
+            self._ctrl_pass()
+        elif k == "exec_pass":
+            self._exec_pass()
+        fw = self.forwarded_to_worker()
+        for m in fw:
+            if fw.count(m) > 1:
+                self.viol.append(("handed_up_twice", "executor forwarded a controller message to the worker twice", f"{m}"))
+                break
+        for m in self.ctrl_events:
+            if self.ctrl_events.count(m) > 1:
+                self.viol.append(("handed_up_twice", "controller received an executor event twice", f"{m}"))
+                break
+
+    def _ctrl_pass(self):
+        """Bridge.recv_events until it would block a second time (one timeout elapses if nothing is queued)"""
+        self.allow_timeout = True
+        try:
+            evs = self.br.recv_events()
+            self.ctrl_events += evs
+        except Yield:
+            pass
+        except ValueError as e:
+            self.ctrl_failed.append(str(e)[:80])
+        finally:
+            self.allow_timeout = False
+
+    def _exec_pass(self):
+        """one pass of Executor.recv_loop (the fake recv_messages flips `terminating` so the loop body runs once)"""
+        ex = self.ex
+        real = ex.mlistener.recv_messages
+
+        def once(timeout_ms=None):
+            ex.terminating = True
+            return real(timeout_ms)
+
+        ex.mlistener.recv_messages = once
+        ex.terminating = False
+        self.allow_timeout = True
+        before = len(self.net.sent_log)
+        try:
+            ex.recv_loop()
+        except Yield:
+            pass
+        finally:
+            self.allow_timeout = False
+            ex.mlistener.recv_messages = real
+        for addr, fr in self.net.sent_log[before:]:
+            try:
+                m = des_message(fr[-1])
+            except Exception:
+                continue
+            if isinstance(m, msg.ExecutorFailure):
+                self.exec_failed = True
+        ex.terminating = False
+
+    def canon(self):
+        now = self.clock[0]
+
+        def sender(S):
+            return tuple(sorted((i, r.remaining, r.at < now - S.resend_grace) for i, r in S.inflight.items()))
+
+        def frames(fr):
+            return tuple(repr(pickle.loads(f))[:90] for f in fr)
+
+        order = {}
+        ranks = []
+        for (_, _, tag) in self.net.flight:
+            order.setdefault(tag, len(order))
+            ranks.append(order[tag])
+        hb = self.ex.heartbeat_watcher
+        return (
+            tuple(self.sent.items()), self.faults_left, sender(self.br.sender), sender(self.ex.sender),
+            tuple(sorted(map(repr, self.br.mlistener.acked))), tuple(sorted(map(repr, self.ex.mlistener.acked))),
+            tuple((a, frames(fr), r) for (a, fr, _), r in zip(self.net.flight, ranks)),
+            tuple((a, tuple(frames(fr) for fr in q)) for a, q in sorted(self.net.queues.items()) if q),
+            tuple(map(repr, self.ctrl_events)), tuple(self.ctrl_failed), self.exec_failed,
+            (now - hb.step_time_ms * 1_000_000) > hb.grace_ms * 1_000_000,
+        )
+
+    def closure(self):
+        """no more faults: frames arrive, both loops keep running; every message must end up delivered or reported"""
+        for _ in range(6 * (MAX_RETRIES + 3)):
+            while self.net.flight:
+                self.net.deliver(0)
+            if not self.ctrl_failed:
+                self._ctrl_pass()
+            if not self.exec_failed:
+                self._exec_pass()
+        out = []
+        fw = self.forwarded_to_worker()
+        for i in range(self.sent["ctrl"]):
+            n = fw.count(self.ctrl_msg(i))
+            if n > 1:
+                out.append(("handed_up_twice", "executor forwarded a controller message to the worker twice", f"{self.ctrl_msg(i)}"))
+            if n == 0 and not self.ctrl_failed and not self.exec_failed:
+                out.append(("lost_silently", "controller->executor message neither delivered nor reported", f"{self.ctrl_msg(i)}"))
+        for i in range(self.sent["exec"]):
+            n = self.ctrl_events.count(self.exec_msg(i))
+            if n > 1:
+                out.append(("handed_up_twice", "controller received an executor event twice", f"{self.exec_msg(i)}"))
+            if n == 0 and not self.ctrl_failed and not self.exec_failed:
+                unacked = dict(self.ex.sender.inflight)
+                cause = "executor->controller message neither delivered nor reported" + (" (executor never retries its unconfirmed sends)" if unacked else "")
+                out.append(("lost_silently", cause, f"{self.exec_msg(i)}; executor inflight {list(unacked)}"))
+        return out
+
+
+def build(cfg, hist):
+    w = World(cfg["faults"])
+    for ev in hist:
+        w.apply(tuple(ev))
+    return w
 
 
 def run(ctx):
-    return {"states": 0, "transitions": 0, "summary": "not built yet"}
+    import time
+
+    tot_s = tot_t = 0
+    summary = []
+    for (nmsgs, faults, depth) in ctx.pick([(1, 1, 9)], [(1, 2, 12), (2, 1, 10)]):
+        cfg = {"faults": faults, "nmsgs": nmsgs}
+
+        def expand(hist, cfg=cfg, nmsgs=nmsgs):
+            w = build(cfg, hist)
+            out = []
+            cl = build(cfg, hist).closure()
+            if cl:
+                out.append((None, None, cl))
+            for ev in w.enabled(nmsgs):
+                q = build(cfg, hist + [ev])
+                out.append((ev, None if q.viol else q.canon(), list(q.viol)))
+            return out
+
+        r = bfs.bfs(expand, build(cfg, []).canon(), depth, deadline=time.time() + ctx.pick(60, 900))
+        tot_s += r["states"]
+        tot_t += r["transitions"]
+        summary.append({"messages_per_direction": nmsgs, "fault_budget": faults, "depth_completed": r["depth"], "closed": r["closed"], "states": r["states"], "capped": r["capped"]})
+        for (mon, cause), (m, hist) in r["violations"].items():
+            ctx.add_violation(common.Violation({"monitor": mon, "cause": "loops: " + cause}, f"[loops {cfg}] {m}; history={hist}", {"part": "loops", "cfg": cfg, "history": hist}))
+        for h in r["samples"][:1]:
+            ctx.sample({"part": "loops", "cfg": cfg, "history": h})
+    return {"states": tot_s, "transitions": tot_t, "summary": summary}
 
 
 def replay(ctx, data):
-    return []
+    w = build(data["cfg"], data["history"])
+    v = list(w.viol) or build(data["cfg"], data["history"]).closure()
+    return [common.Violation({"monitor": m, "cause": "loops: " + c}, msg_, data) for (m, c, msg_) in v]
